@@ -202,6 +202,85 @@ example : scanDb exampleStatus =
     some [⟨asc "a", asc "1:2", asc "i386", asc "x", asc "1.2"⟩, ⟨asc "b", asc "2~", asc "all", asc "b", asc "2~"⟩] := by
   decide
 
+/-! ### the hypotheses of the exactness theorem are satisfiable -/
+
+def exFields (name status version arch : String) (extra : List Field) : List Field :=
+  [simpleField kPackage [32] (asc name), simpleField kStatus [32] (asc status)] ++ extra ++
+  [simpleField kVersion [9] (asc version), simpleField (asc "architecture") [] (asc arch)]
+
+def exBlocks : List Block :=
+  [⟨exFields "a" "install ok installed" "1:2" "i386"
+      [simpleField kSource [32] (asc "x (1.2)"), ⟨asc "Description", [32], asc "s", [asc " long", asc " ."]⟩], 1⟩,
+   ⟨exFields "g" "purge ok config-files" "3" "all" [], 0⟩]
+
+def exLast : List Field := exFields "b" "hold ok installed" "2~" "all" []
+
+def exEntries : List Entry :=
+  [⟨asc "a", asc "1:2", asc "i386", true, some (asc "x", some (asc "1.2"))⟩,
+   ⟨asc "g", asc "3", asc "all", false, none⟩,
+   ⟨asc "b", asc "2~", asc "all", true, none⟩]
+
+theorem exFields_wf : (∀ b ∈ exBlocks, b.fields ≠ [] ∧ ∀ f ∈ b.fields, f.WF) ∧ (exLast ≠ [] ∧ ∀ f ∈ exLast, f.WF) := by
+  have wf : ∀ f : Field, f.key ≠ [] → f.key.all validFieldByte = true → f.sep.all isWs = true →
+      f.first.all validValueByte = true → f.conts.all (fun l => startsWs l && l.all validValueByte) = true → f.WF := by
+    intro f h1 h2 h3 h4 h5
+    simp only [List.all_eq_true, Bool.and_eq_true] at h2 h3 h4 h5
+    exact ⟨h1, h2, h3, h4, fun l hl => (h5 l hl).1, fun l hl => (h5 l hl).2⟩
+  refine ⟨?_, ?_, ?_⟩
+  · intro b hb
+    simp only [exBlocks, List.mem_cons, List.mem_nil_iff, or_false] at hb
+    rcases hb with rfl | rfl
+    · refine ⟨by simp [exFields], ?_⟩
+      intro f hf
+      simp only [exFields, List.cons_append, List.nil_append, List.mem_cons, List.mem_nil_iff, or_false] at hf
+      rcases hf with rfl | rfl | rfl | rfl | rfl | rfl <;> (apply wf <;> decide)
+    · refine ⟨by simp [exFields], ?_⟩
+      intro f hf
+      simp only [exFields, List.cons_append, List.nil_append, List.append_nil, List.mem_cons, List.mem_nil_iff, or_false] at hf
+      rcases hf with rfl | rfl | rfl | rfl <;> (apply wf <;> decide)
+  · simp [exLast, exFields]
+  · intro f hf
+    simp only [exLast, exFields, List.cons_append, List.nil_append, List.append_nil, List.mem_cons, List.mem_nil_iff, or_false] at hf
+    rcases hf with rfl | rfl | rfl | rfl <;> (apply wf <;> decide)
+
+/-- Non-vacuity: a three-stanza document — blank-line run, tab and empty
+    separators, a lower-case key, a folded Description, `Source: x (1.2)`, a
+    not-installed stanza, no newline at the end — meets every hypothesis of
+    `dpkg_scan_exact_partial`; the theorem gives its two installed packages. -/
+example : scanDb (docBytes 1 exBlocks (some exLast) false) = some (installedPkgs exEntries) := by
+  apply dpkg_scan_exact_partial 1 exBlocks (some exLast) false exEntries exFields_wf.1
+  · intro fs h; cases h; exact exFields_wf.2
+  · intro _ h; cases h
+  · refine .cons ⟨?_, ?_, ?_, ?_, ?_⟩ (.cons ⟨?_, ?_, ?_, ?_, ?_⟩ (.cons ⟨?_, ?_, ?_, ?_, ?_⟩ .nil)) <;> decide
+  · intro e he hi
+    simp only [exEntries, List.mem_cons, List.mem_nil_iff, or_false] at he
+    rcases he with rfl | rfl | rfl
+    · refine ⟨by decide, by decide, by decide, ?_⟩
+      intro n v h; cases h
+      exact ⟨by decide, by decide, fun w hw => by cases hw; decide⟩
+    · cases hi
+    · refine ⟨by decide, by decide, by decide, ?_⟩
+      intro n v h; cases h
+  · unfold NoDupNames exEntries
+    refine List.pairwise_cons.2 ⟨?_, List.pairwise_cons.2 ⟨?_, List.pairwise_cons.2 ⟨?_, List.Pairwise.nil⟩⟩⟩
+    · intro b hb
+      simp only [List.mem_cons, List.mem_nil_iff, or_false] at hb
+      rcases hb with rfl | rfl <;> decide
+    · intro b hb
+      simp only [List.mem_cons, List.mem_nil_iff, or_false] at hb
+      rcases hb with rfl <;> decide
+    · intro b hb; simp at hb
+  · unfold SourcesAgree exEntries
+    refine List.pairwise_cons.2 ⟨?_, List.pairwise_cons.2 ⟨?_, List.pairwise_cons.2 ⟨?_, List.Pairwise.nil⟩⟩⟩
+    · intro b hb
+      simp only [List.mem_cons, List.mem_nil_iff, or_false] at hb
+      rcases hb with rfl | rfl <;> (intro _ _ n v w _ h2; simp [Entry.explicitSrc] at h2)
+    · intro b hb
+      simp only [List.mem_cons, List.mem_nil_iff, or_false] at hb
+      rcases hb with rfl
+      intro _ _ n v w _ h2; simp [Entry.explicitSrc] at h2
+    · intro b hb; simp at hb
+
 /-! ## apk installed -/
 
 section apk
